@@ -184,6 +184,14 @@ func (x *Exec) unitReturn(st *State, fr *Frame, res []Val, in *ssa.Return) {
 	}
 	binds := x.bindResults(fr.fn.Signature, res)
 	for _, cl := range c.Ensures {
+		if cl.Kind == "lemma" {
+			// a cut: proved here under everything known so far, then assumed for what follows
+			if g, ok := x.evalLemma(st, fr, cl, binds); ok {
+				x.oblige(st, fr, "lemma."+cl.Label, "lemma", cl.Label, g, in, nil)
+				st.assume(g)
+			}
+			continue
+		}
 		g := x.evalClause(st, fr, cl, binds)
 		x.oblige(st, fr, "post."+cl.Label, "post", cl.Label, g, in, nil)
 	}
@@ -522,6 +530,9 @@ func (x *Exec) callByContract(st *State, fr *Frame, callee *ssa.Function, c *Con
 		st.ghost["failed:any"] = TV{SBool, da}
 	}
 	for _, cl := range c.Ensures {
+		if cl.Kind == "lemma" {
+			continue // proof-internal: speaks about the callee's locals
+		}
 		st.assume(x.evalClause(st, cf, cl, binds))
 	}
 	if x.faulty {
